@@ -766,6 +766,8 @@ impl Program {
         let mut register_banks = Vec::new();
         let mut errors = Vec::new();
         let mut seen_registers : HashMap<String, Span> = HashMap::new();
+        let constant_widths: HashMap<&str, WireWidth> =
+            constants.iter().map(|(name, value)| (name.as_str(), value.width)).collect();
         for decl in &register_banks_raw {
             // FIXME: should really iterate over graphemes
             let name_chars: Vec<char> = decl.name.chars().collect();
@@ -865,6 +867,12 @@ impl Program {
                 }
 
                 if found_error {
+                    continue;
+                }
+
+                // initial values obey the same width rules as constants and assigned expressions
+                if let Err(e) = register.default.get_width_and_check(&constant_widths, &constants) {
+                    errors.push(e);
                     continue;
                 }
 
